@@ -62,6 +62,7 @@ type Hint struct {
 }
 
 type Case struct {
+	ErrStyle string `json:"err_style,omitempty"` // how the storage words its own refusals (vkit.Store.refuse)
 	Prov     ProvCfg           `json:"prov"`
 	Clients  []vkit.ClientSpec `json:"clients"` // client-a, client-b
 	Hint     Hint              `json:"hint"`
@@ -334,6 +335,15 @@ var specialStates = []string{
 }
 
 func genCase(t *rapid.T) Case {
+	c := genCase0(t)
+	// drawn last so that the rest of the case does not depend on it
+	if rapid.Bool().Draw(t, "errstyled") {
+		c.ErrStyle = rapid.SampledFrom(vkit.ErrStyles).Draw(t, "errstyle")
+	}
+	return c
+}
+
+func genCase0(t *rapid.T) Case {
 	var c Case
 	p := &c.Prov
 	p.Router = rapid.SampledFrom([]string{"provider", "legacy"}).Draw(t, "router")
@@ -831,7 +841,7 @@ func run(c Case) (res *vkit.Result) {
 		cls = append(cls, &cl)
 		byID[cl.ID] = &cl
 	}
-	st := vkit.NewStore(cls, c.Prov.Sign, vkit.StorePolicy{})
+	st := vkit.NewStore(cls, c.Prov.Sign, vkit.StorePolicy{ErrStyle: c.ErrStyle})
 	published := map[string]string{c.Prov.Sign.KeyName: c.Prov.Sign.KID}
 	if c.Prov.ExtraPub != nil {
 		st.PubKeys = append(st.PubKeys, *c.Prov.ExtraPub)
